@@ -413,7 +413,16 @@ class Channel(ClosingContextManager):
         .. versionadded:: 1.2
         """
         # in many cases, the channel will not still be open here.
-        # that's fine.
+        # that's fine: but then nothing may be sent either.  Once our CLOSE
+        # is out no message may follow it, and after the peer's CLOSE the
+        # peer has released the channel: a request naming it would be a
+        # protocol error on the peer's side.
+        self.lock.acquire()
+        try:
+            if self.closed:
+                return
+        finally:
+            self.lock.release()
         m = Message()
         m.add_byte(cMSG_CHANNEL_REQUEST)
         m.add_int(self.remote_chanid)
